@@ -13,6 +13,8 @@ def dispatchWrapF (line : String) : String :=
   | "implied" :: args => handleImplied args
   | "ifguards" :: args => handleIfGuards args
   | "ranks" :: args => handleRanks args
+  | "pure" :: args => handlePure args
+  | "cderef" :: args => handleCDeref args
   | _ => "bad-op"
 
 partial def loopWrapF (h : IO.FS.Stream) (out : IO.FS.Stream) : IO Unit := do
